@@ -1,24 +1,27 @@
-/* Contracts for property C14 (logging): source/log_formatter.c and source/logging.c.
+/* Contracts for property C14 (logging): source/log_formatter.c, source/logging.c, source/log_channel.c.
  *
  * The header is included TWICE by a proof unit:
  *   pass 1 (before `#include "source/<file>.c"`): ghost state, the snprintf hook, contracts of the callees
- *          (libc formatted output, date-time, thread id, level names) and of functions whose contract needs no
- *          file-local symbol;
+ *          (libc formatted output, date-time, thread id, level names, mutex/condition variable/thread) and of functions
+ *          whose contract needs no file-local symbol;
  *   pass 2 (after the source file, with VERIF_LOGGING_PASS2 defined): contracts that have to name file-local
- *          objects of the source file (tl_logging_thread_id, s_root_logger_ptr).
+ *          objects or types of the source file (tl_logging_thread_id, s_root_logger_ptr, struct aws_logger_noalloc,
+ *          struct aws_log_foreground_channel / aws_log_background_channel).  A contract on a re-declaration AFTER the
+ *          definition works for static functions too.
+ * Unit selectors: VERIF_FORMATTER_TU (+ VERIF_HOOK_SNPRINTF), VERIF_LOGGING_TU, VERIF_CHANNEL_TU.
  *
  * Formatted output (snprintf/vsnprintf) is ASSUMED to obey C99 7.19.6.5/7.19.6.12:
  *   returns the length L the complete text would have (or a negative value on an encoding error; never negative for
  *   a format without conversion specifications, for which L == strlen(format) and the text is the format itself);
  *   when n > 0 it stores min(L, n-1) characters of the text followed by a NUL inside [s, s+n) and nothing else.
- * The contract below havocs all n bytes (a superset of what snprintf may store: sound for the caller's proof).
  * ASSUMED in addition: the text contains no NUL character (true unless a `%c` conversion is given the value 0).
+ * How the stores are modelled (oracle lengths, projection onto the witness position): see below at g_L.
  *
  * `snprintf` is variadic.  DFCC 6.11 passes its write-set as an extra trailing parameter, which collides with the
  * variable arguments of a replaced variadic call (spurious "assigns clause ... included" failure with a garbage
- * write-set pointer).  The unit therefore maps `snprintf(s, n, fmt, args...)` to the three-parameter
- * `verif_snprintf(s, n, fmt)` with a macro (the format arguments are pure expressions in log_formatter.c and are
- * dropped: the model's text is arbitrary anyway).
+ * write-set pointer).  The unit therefore maps `snprintf(s, n, fmt, args...)` to the four-parameter
+ * `verif_snprintf(s, n, fmt, first_arg)` with a macro (the formats of log_formatter.c have at most one conversion and
+ * their arguments are pure expressions).
  *
  * Ghost state (all reset by FMT_GHOST_RESET()):
  *   g_w        arbitrary index into the line buffer ("for all positions" witness, DESIGN §4.3)
@@ -29,7 +32,7 @@
  *              1 "[LEVEL] ["  2 timestamp  3 "] [thread] "  4 "[subject]"  5 " - "  6 user message  7 "\n"
  *   g_strict   off: contiguity/newline/no-NUL are demanded only while nothing was truncated
  *              on : they are demanded always (the property statement: a cut line is still newline-terminated)
- *   g_msg_fmt  the format handed to vsnprintf
+ *   g_msg_fmt  the format handed to vsnprintf; g_arg[piece] the string printed by each snprintf piece
  */
 #ifndef VERIF_CONTRACTS_LOGGING_H
 #define VERIF_CONTRACTS_LOGGING_H
